@@ -82,6 +82,7 @@ def add_header_to_file(
     """Helper function."""
     # pylint: disable=too-many-arguments,too-many-locals
     result = 0
+    created_dot_license = None
     comment_style: Optional[Type[CommentStyle]] = NAME_STYLE_MAP.get(
         cast(str, style)
     )
@@ -100,6 +101,8 @@ def add_header_to_file(
             )
             out.write("\n")
             path = _determine_license_suffix_path(path)
+            if not path.exists():
+                created_dot_license = path
             path.touch()
             comment_style = EmptyCommentStyle
 
@@ -165,5 +168,9 @@ def add_header_to_file(
         # TODO: This may need to be rephrased more elegantly.
         out.write(_("Successfully changed header of {path}").format(path=path))
         out.write("\n")
+
+    if result and created_dot_license is not None:
+        # Do not leave the freshly created, empty .license file behind.
+        created_dot_license.unlink()
 
     return result
